@@ -301,28 +301,8 @@ func checkC15(c *Ctx) {
 	// dispatcher: function with comma-ok lookup in a map of funcs keyed by the request's method
 	var dispatcher *ssa.Function
 	var dispCands []*ssa.Function
-	for _, fn := range c.P.LibFns {
-		ir.EachInstr(fn, func(_ *ssa.BasicBlock, _ int, in ssa.Instruction) {
-			lk, ok := in.(*ssa.Lookup)
-			if !ok || !lk.CommaOk {
-				return
-			}
-			m, ok := lk.X.Type().Underlying().(*types.Map)
-			if !ok {
-				return
-			}
-			if sig, isSig := m.Elem().Underlying().(*types.Signature); isSig && derivesFromMethod(lk.Index) {
-				takesReq := false
-				for i := 0; i < sig.Params().Len(); i++ {
-					if ir.TypeStr(sig.Params().At(i).Type()) == "*mcp.JSONRPCRequest" {
-						takesReq = true
-					}
-				}
-				if takesReq {
-					dispCands = append(dispCands, fn)
-				}
-			}
-		})
+	for _, rl := range c.routeLookups() {
+		dispCands = append(dispCands, rl.fn)
 	}
 	// the one the middleware entry reaches (other transports may have a routing table of their own)
 	entryReach := c.Reach(entry)
